@@ -249,6 +249,26 @@ class Ctx:
             raise
 
 
+def isolate_abort(nl, prelude, srcs, fuel=300_000, timeout=60):
+    """A batch killed the interpreter process (abort / stack overflow / allocation failure). Re-run
+    the expressions one at a time, each in a fresh session after the prelude, and return the index of
+    the first one that kills the process twice in a row (deterministic), else None."""
+    for i, src in enumerate(srcs):
+        dead = 0
+        for _ in range(2):
+            try:
+                nl.run(list(prelude) + [src], fuel=fuel, timeout=timeout, stop_on_panic=False)
+                break
+            except Inconclusive as e:
+                if e.kind in ("abort", "crash"):
+                    dead += 1
+                else:
+                    break
+        if dead == 2:
+            return i
+    return None
+
+
 def _worker_main(modname, tier, seed, index, nworkers, q):
     import importlib
     t0 = time.time()
